@@ -28,10 +28,11 @@ type PanicV struct {
 type pathEnd struct{}
 
 type frame struct {
-	fn    *ssa.Function
-	env   map[ssa.Value]Value
-	block *ssa.BasicBlock
-	prev  *ssa.BasicBlock
+	fn     *ssa.Function
+	env    map[ssa.Value]Value
+	block  *ssa.BasicBlock
+	prev   *ssa.BasicBlock
+	defers []func()
 }
 
 func (c *Ctx) abort(format string, a ...interface{}) *Abort {
@@ -455,7 +456,27 @@ func (c *Ctx) exec(fr *frame, in ssa.Instruction) {
 		panic(c.abort("SliceToArrayPointer"))
 	case *ssa.DebugRef:
 	case *ssa.RunDefers:
-	case *ssa.Defer, *ssa.Go, *ssa.Select, *ssa.Send:
+		for k := len(fr.defers) - 1; k >= 0; k-- {
+			fr.defers[k]()
+		}
+		fr.defers = nil
+	case *ssa.Defer:
+		// deferred calls run at RunDefers (normal return); a panic skips them (no recover in the model)
+		cc := in.Common()
+		if cc.IsInvoke() {
+			panic(c.abort("defer of an interface method call"))
+		}
+		fv := c.get(fr, cc.Value)
+		var args []Value
+		for _, a := range cc.Args {
+			args = append(args, c.get(fr, a))
+		}
+		cl, ok := fv.(*Closure)
+		if !ok || cl == nil {
+			panic(c.abort("defer of %T", fv))
+		}
+		fr.defers = append(fr.defers, func() { c.callClosure(cl, args, cc) })
+	case *ssa.Go, *ssa.Select, *ssa.Send:
 		panic(c.abort("unsupported instruction %T in %s", in, fr.fn))
 	default:
 		panic(c.abort("unknown instruction %T", in))
@@ -733,6 +754,9 @@ func (c *Ctx) builtin(name string, args []Value, cc *ssa.CallCommon) Value {
 		return c.St.BVC(64, uint64(n))
 	case "delete":
 		m := args[0].(*MapV)
+		if name, ok := c.watchMaps[m]; ok {
+			c.writes = append(c.writes, fmt.Sprintf("%s: map delete @ %s", name, c.where()))
+		}
 		if m != nil {
 			k := c.keyOf(args[1])
 			if _, ok := m.M[k]; ok {
@@ -848,6 +872,9 @@ func (c *Ctx) keyOf(k Value) string {
 }
 
 func (c *Ctx) mapSet(m *MapV, k, v Value) {
+	if name, ok := c.watchMaps[m]; ok {
+		c.writes = append(c.writes, fmt.Sprintf("%s: map update @ %s", name, c.where()))
+	}
 	ks := c.keyOf(k)
 	if e, ok := m.M[ks]; ok {
 		e.V = copyVal(v)
